@@ -42,6 +42,22 @@ const MAX_REF_STEPS: u64 = 6000;
 const FLAG_AWARE_BUDGET: u64 = 3_000_000;
 const MAX_DISCRIMINATED: usize = 4;
 
+/// the diverging capacity first, then the ladder around it (re-keyed tables hold more entries per position, so the
+/// band of a capacity-limited defect moves up rather than down)
+fn scan_caps(c: usize) -> Vec<usize> {
+    let mut out = vec![c];
+    if c == 0 || c > 4096 {
+        return out;
+    }
+    for (n, d) in [(1usize, 2usize), (3, 4), (3, 2), (2, 1), (3, 1), (4, 1), (6, 1), (8, 1), (12, 1), (16, 1)] {
+        let x = (c * n / d).max(1);
+        if x <= 16384 && !out.contains(&x) {
+            out.push(x);
+        }
+    }
+    out
+}
+
 fn run_one(sc: &Scenario, call: &Call, budget: u64) -> Result<(CallOutcome, u64), String> {
     let mut one = sc.clone();
     one.threads = vec![vec![Op::Call(call.clone())]];
@@ -370,89 +386,133 @@ impl Property for C17 {
             v.kind = "digest-mismatch".into();
             let mut frozen = sc.clone();
             frozen.threads = vec![vec![Op::Call(r2.clone()), Op::Call(c2.clone())]];
-            // discriminator
-            // first discriminator: the flag-aware key (vendored fork): the table is keyed additionally on the
-            // left-recursion flags in force. (A second intervention was tried - shipped key, but hits on entries
-            // stored under other flags recomputed - and dropped: it does not remove every divergence of this
-            // defect, e.g. a spec snippet with cross-bin select expressions at capacity 416. Both interventions
-            // shift the eviction pattern, so a defect that shows only in a narrow band of capacities can vanish
-            // with them for no causal reason; that limit is stated in DESIGN.md.)
-            let mut fa_r = r2.clone();
-            fa_r.flag_aware = true;
-            let mut fa_c = c2.clone();
-            fa_c.flag_aware = true;
-            let fr = run_one(sc, &fa_r, FLAG_AWARE_BUDGET);
-            let fc = run_one(sc, &fa_c, FLAG_AWARE_BUDGET);
-            rep.execs += 2;
-            match (fr, fc) {
-                (Ok((fr, s1)), Ok((fc, s2))) => {
-                    rep.steps += s1 + s2;
-                    match (accept(&fr), accept(&fc)) {
-                        (Some(x), Some(y)) if x == y => {
-                            v.detail = format!("{} [vanishes with a flag-aware memo key: the key (parser, position, in_directive) omits the left-recursion flags carried in the span - impl HasExtraState<bool> for SpanInfo, sv-parser-parser/src/lib.rs]", v.detail);
-                            rep.probe(&format!("finding1_at_capacity_{}", c.memo_capacity.map(|x| if x == 0 { "unbounded".to_string() } else if x > 4096 { "large".to_string() } else { x.to_string() }).unwrap_or_default()), 1);
-                            rep.matched.push((KNOWN_ID.to_string(), v));
-                            if rep.replay_scenario.is_none() {
-                                rep.replay_scenario = Some(frozen);
-                            }
-                            if accept(&fr) != accept(&a) {
-                                rep.probe("flag_aware_differs_at_declared_capacity", 1);
-                            }
+            // ---- first discriminator: the flag-aware key (vendored fork): the table is keyed additionally on the
+            // left-recursion flags in force. Re-keying shifts the eviction pattern, so a defect that shows only in a
+            // band of capacities could vanish at the diverging capacity for no causal reason; therefore the re-keyed
+            // table is run at the diverging capacity AND at a ladder of capacities around it (x0.5 .. x16), and the
+            // divergence counts as explained by the recursion-flag finding only if the re-keyed table agrees with the
+            // re-keyed declared capacity at every rung that finishes within its budget.
+            // (A second intervention was tried - shipped key, but hits on entries stored under other flags recomputed -
+            // and dropped: it does not remove every divergence of this defect, e.g. a spec snippet with cross-bin select
+            // expressions at capacity 416.)
+            let fa = |k: &Call, cap: Option<usize>, text: &str, freeze: bool| -> Call {
+                let mut k = with_text(k, text);
+                k.flag_aware = true;
+                k.freeze_version = freeze;
+                if let Some(x) = cap {
+                    k.memo_capacity = Some(x);
+                }
+                k
+            };
+            rep.execs += 1;
+            let fa_ref = match run_one(sc, &fa(reference, None, &small, false), FLAG_AWARE_BUDGET) {
+                Ok((o, s)) if accept(&o).is_some() => {
+                    rep.steps += s;
+                    o
+                }
+                _ => {
+                    rep.probe("unattributed_discriminator_budget", 1);
+                    continue;
+                }
+            };
+            let ladder = scan_caps(c.memo_capacity.unwrap_or(1024));
+            let mut persisting: Option<(usize, CallOutcome)> = None;
+            let mut judged_at_c = false;
+            for (k, cap) in ladder.iter().enumerate() {
+                rep.execs += 1;
+                if let Ok((o, s)) = run_one(sc, &fa(c, Some(*cap), &small, false), FLAG_AWARE_BUDGET) {
+                    rep.steps += s;
+                    if let Some(x) = accept(&o) {
+                        if k == 0 {
+                            judged_at_c = true;
                         }
-                        (Some(_), Some(_)) => {
-                            // second discriminator: the keyword-version stack is parse-history state outside the memo key
-                            // (replayed side effects, counted by the hook probe, are reported as supporting evidence)
-                            let replay_div = b.kw_replayed_pushes + b.kw_replayed_effective_pops;
-                            let replay_ref = a.kw_replayed_pushes + a.kw_replayed_effective_pops;
-                            // Two routes of the listed keyword-stack finding, each with its own evidence and intervention:
-                            //  (a) a `begin_keywords region: a region push was executed (hook probe) and the two capacities
-                            //      agree once the keyword directives of the input are blanked out;
-                            //  (b) entries leaked by a failed macro-name lexing (text_macro_usage / text_macro_definition
-                            //      return through `?` between begin_keywords("directive") and end_keywords()): no region
-                            //      push at all, the version stack is non-empty after the parse (hook probe), and the two
-                            //      capacities agree when the keyword set in force is frozen to the default (hook knob).
-                            //      The freeze is used only here: with directives in the input it changes how they lex.
-                            let region = b.sites[4] + a.sites[4] > 0;
-                            let leaked = a.residue_after.1 + b.residue_after.1 > 0;
-                            let neutral = neutralise_keyword_directives(&small);
-                            let mut attributed = false;
-                            let (i1, i2) = if region && neutral != small {
-                                (Some(with_text(reference, &neutral)), Some(with_text(c, &neutral)))
-                            } else if !region && leaked {
-                                let mut f1 = with_text(reference, &small);
-                                f1.freeze_version = true;
-                                let mut f2 = with_text(c, &small);
-                                f2.freeze_version = true;
-                                (Some(f1), Some(f2))
-                            } else {
-                                (None, None)
-                            };
-                            if let (Some(f1), Some(f2)) = (i1, i2) {
-                                let n1 = run_one(sc, &f1, 400_000);
-                                let n2 = run_one(sc, &f2, 400_000);
-                                rep.execs += 2;
-                                if let (Ok((n1, _)), Ok((n2, _))) = (n1, n2) {
-                                    if let (Some(x), Some(y)) = (accept(&n1), accept(&n2)) {
-                                        attributed = x == y;
-                                    }
-                                }
-                            }
-                            if attributed {
-                                v.detail = format!("{} [persists with a flag-aware key; keyword-stack route confirmed (region: directives blanked out / leak: keyword set frozen; {} replayed region side effects in the diverging run vs {} in the reference): the keyword-version stack is mutated inside memoised parsers and consulted by memoised parsers without being part of the key (version_specifier / endkeywords_directive via white_space; is_keyword), sv-parser-parser/src/general/compiler_directives.rs, utils.rs]", v.detail, replay_div, replay_ref);
-                                rep.matched.push((KNOWN_ID_KW.to_string(), v));
-                                if rep.replay_scenario.is_none() {
-                                    rep.replay_scenario = Some(frozen);
-                                }
-                            } else {
-                                v.detail = format!("{} [persists with a flag-aware memo key (not the known recursion-flag finding) and when the keyword set is frozen (not the keyword-stack finding); replayed keyword-region side effects: {} vs {}]", v.detail, replay_div, replay_ref);
-                                rep.violations.push(v);
-                                rep.replay_scenario = Some(frozen);
-                            }
+                        rep.probe("flag_aware_rungs_judged", 1);
+                        if Some(x) != accept(&fa_ref) {
+                            persisting = Some((*cap, o));
+                            break;
                         }
-                        _ => rep.probe("unattributed_discriminator_budget", 1),
+                    } else {
+                        rep.probe("flag_aware_rungs_over_budget", 1);
                     }
                 }
-                _ => rep.probe("unattributed_discriminator_budget", 1),
+                if k == 0 && !judged_at_c {
+                    break;
+                }
+            }
+            if !judged_at_c {
+                rep.probe("unattributed_discriminator_budget", 1);
+                continue;
+            }
+            match persisting {
+                None => {
+                    v.detail = format!("{} [vanishes with a flag-aware memo key at the diverging capacity and on the capacity ladder around it: the key (parser, position, in_directive) omits the left-recursion flags carried in the span - impl HasExtraState<bool> for SpanInfo, sv-parser-parser/src/lib.rs]", v.detail);
+                    rep.probe(&format!("finding1_at_capacity_{}", c.memo_capacity.map(|x| if x == 0 { "unbounded".to_string() } else if x > 4096 { "large".to_string() } else { x.to_string() }).unwrap_or_default()), 1);
+                    rep.matched.push((KNOWN_ID.to_string(), v));
+                    if rep.replay_scenario.is_none() {
+                        rep.replay_scenario = Some(frozen);
+                    }
+                    if accept(&fa_ref) != accept(&a) {
+                        rep.probe("flag_aware_differs_at_declared_capacity", 1);
+                    }
+                }
+                Some((cap2, fo)) => {
+                    if cap2 != c.memo_capacity.unwrap_or(1024) {
+                        rep.probe("persists_only_on_ladder", 1);
+                    }
+                    // second discriminator, with the recursion-flag finding out of the picture (both runs keep the
+                    // flag-aware key, at the capacity where the divergence persists): the keyword-version stack is
+                    // parse-history state outside the memo key. Two routes of that listed finding, each with its own
+                    // evidence and intervention:
+                    //  (a) a `begin_keywords region: a region push was executed (hook probe) and the two capacities
+                    //      agree once the keyword directives of the input are blanked out;
+                    //  (b) entries leaked by a failed macro-name lexing (text_macro_usage / text_macro_definition
+                    //      return through `?` between begin_keywords("directive") and end_keywords()): no region
+                    //      push at all, the version stack is non-empty after the parse (hook probe), and the two
+                    //      capacities agree when the keyword set in force is frozen to the default (hook knob).
+                    //      The freeze is used only here: with directives in the input it changes how they lex.
+                    let replay_div = b.kw_replayed_pushes + b.kw_replayed_effective_pops + fo.kw_replayed_pushes + fo.kw_replayed_effective_pops;
+                    let replay_ref = a.kw_replayed_pushes + a.kw_replayed_effective_pops;
+                    let region = fo.sites[4] + fa_ref.sites[4] > 0;
+                    let leaked = fo.residue_after.1 + fa_ref.residue_after.1 > 0;
+                    let neutral = neutralise_keyword_directives(&small);
+                    let mut attributed = false;
+                    let pair = if region && neutral != small {
+                        Some((fa(reference, None, &neutral, false), fa(c, Some(cap2), &neutral, false)))
+                    } else if !region && leaked {
+                        Some((fa(reference, None, &small, true), fa(c, Some(cap2), &small, true)))
+                    } else {
+                        None
+                    };
+                    if let Some((f1, f2)) = pair {
+                        let n1 = run_one(sc, &f1, FLAG_AWARE_BUDGET);
+                        let n2 = run_one(sc, &f2, FLAG_AWARE_BUDGET);
+                        rep.execs += 2;
+                        match (n1, n2) {
+                            (Ok((n1, _)), Ok((n2, _))) => match (accept(&n1), accept(&n2)) {
+                                (Some(x), Some(y)) => attributed = x == y,
+                                _ => {
+                                    rep.probe("unattributed_discriminator_budget", 1);
+                                    continue;
+                                }
+                            },
+                            _ => {
+                                rep.probe("unattributed_discriminator_budget", 1);
+                                continue;
+                            }
+                        }
+                    }
+                    if attributed {
+                        v.detail = format!("{} [persists with a flag-aware key (at capacity {}); keyword-stack route confirmed ({}; {} replayed region side effects in the diverging runs vs {} in the reference): the keyword-version stack is mutated inside memoised parsers and consulted by memoised parsers without being part of the key (version_specifier / endkeywords_directive via white_space; is_keyword), sv-parser-parser/src/general/compiler_directives.rs, utils.rs]", v.detail, cap2, if region { "region: agrees once the keyword directives are blanked out" } else { "leak: agrees once the keyword set is frozen" }, replay_div, replay_ref);
+                        rep.matched.push((KNOWN_ID_KW.to_string(), v));
+                        if rep.replay_scenario.is_none() {
+                            rep.replay_scenario = Some(frozen);
+                        }
+                    } else {
+                        v.detail = format!("{} [persists with a flag-aware memo key at capacity {} (not the known recursion-flag finding); keyword-stack routes: region push seen={}, leaked entries seen={}, intervention did not remove it (not the keyword-stack finding); replayed keyword-region side effects: {} vs {}]", v.detail, cap2, region, leaked, replay_div, replay_ref);
+                        rep.violations.push(v);
+                        rep.replay_scenario = Some(frozen);
+                    }
+                }
             }
         }
         rep.nontrivial = evicted_and_missed;
